@@ -50,7 +50,7 @@ def run(chk):
     work = os.path.join(vlib.BUILD, "c06")
     shutil.rmtree(work, ignore_errors=True)
     os.makedirs(work)
-    K = 4 if tier == "quick" else 25
+    K = 3 if tier == "quick" else 25
     ncpu = vlib.NCPU
     cpus_list = [2, 3, None] if ncpu >= 3 else [None]       # NumCPU-1 worker routines: 1, 2, default
     xproc = 1 if tier == "quick" else 4                     # processes per cpu setting
@@ -61,7 +61,7 @@ def run(chk):
     progs.append(("regress", d, None, "config_bt.yaml"))
     for k in range(1 if tier == "quick" else 4):
         d = os.path.join(work, "gen%d" % k)
-        C.mugo(d, seed=chk.seed * 1000 + 700 + k, n=(35 if tier == "quick" else 50))
+        C.mugo(d, seed=chk.seed * 1000 + 700 + k, n=(30 if tier == "quick" else 50))
         progs.append(("gen%d" % k, d, None, "config_bt.yaml"))
     for name in (["escape-integration"] if tier == "quick" else ["escape-integration", "basic", "closures", "agent-example", "globals", "fromlevee"]):
         d = C05.stage_testdata(work, name)
@@ -74,7 +74,7 @@ def run(chk):
 
     taint_specs = ["od=0,n=%d" % K, "od=1,n=%d" % K, "fs=1,od=0,n=2", "od=0,ma=1,n=%d" % K, "od=0,ma=2,n=2"]
     bt_specs = ["bt=1,od=0,n=%d" % K, "bt=1,od=1,n=2"]
-    x_taint = ["od=0", "od=1", "od=0,ma=1"]
+    x_taint = ["od=0", "od=1"] if tier == "quick" else ["od=0", "od=1", "od=0,ma=1"]
     x_bt = ["bt=1,od=0"]
 
     jobs = []
